@@ -139,6 +139,8 @@ func gateGrid(quick bool) []string {
 			ids = append(ids, gateID("CosetInterpolation", sb, deg))
 		}
 	}
+	// larger subgroups (FRI arities 32, 64, 128 are legal): many barycentric weights
+	ids = append(ids, gateID("CosetInterpolation", 5, 3), gateID("CosetInterpolation", 6, 5))
 	ids = append(ids, gateID("Noop"), gateID("PublicInput"), gateID("Poseidon"), gateID("PoseidonMds"))
 	return ids
 }
